@@ -109,8 +109,12 @@ class BreakdownScheduler(Entity):
         from happysimulator.core.temporal import Instant
 
         ttf = random.expovariate(1.0 / self.mean_time_to_failure)
+        # Time to failure counts from "now" (the simulation's start when scheduled
+        # before the run), not from the epoch: with a non-zero start_time an
+        # epoch-relative stamp lies in the past and the engine discards it.
+        start = self._clock.now if self._clock is not None else Instant.Epoch
         return Event(
-            time=Instant.from_seconds(ttf),
+            time=start + ttf,
             event_type=_BREAKDOWN,
             target=self,
             daemon=True,
